@@ -59,9 +59,9 @@ Definition blank (s : str) : bool := forallb xml_ws s.
 Definition blank_o (o : option str) : bool := match o with Some s => blank s | None => true end.
 
 (* ================================================================== reads *)
-Definition reads_attrs (eats : list (XmlNs.qname * list atom)) (attrs : list (str * str)) : Prop :=
+Definition reads_attrs (ns : nsmap) (eats : list (XmlNs.qname * list atom)) (attrs : list (str * str)) : Prop :=
   NoDup (map fst attrs) /\ length attrs = length eats /\
-  forall ea, In ea eats -> exists v, atoms_text (snd ea) = Some v /\ In (clark_of (fst ea), v) attrs.
+  forall ea, In ea eats -> exists v, atoms_read ns (snd ea) v /\ In (clark_of (fst ea), v) attrs.
 
 Fixpoint reads (e : XmlNs.enode) (pevs : list pevent) {struct e} : Prop :=
   match e with
@@ -69,7 +69,7 @@ Fixpoint reads (e : XmlNs.enode) (pevs : list pevent) {struct e} : Prop :=
   | EElem q eats ekids =>
       exists attrs ns text tail kes,
         pevs = PStart (clark_of q) attrs ns :: kes ++ [PEnd (clark_of q) text tail]
-        /\ reads_attrs eats attrs /\ blank_o tail = true
+        /\ reads_attrs ns eats attrs /\ blank_o tail = true
         /\ match ekids with
            | [] => text = None /\ kes = []
            | [EData atoms] => exists s, atoms_read ns atoms s /\ s <> [] /\ text = Some s /\ kes = []
@@ -279,6 +279,9 @@ Section Guards.
     && match v_factory v with None => true | Some _ => false end
     && negb (reserved_name (v_qname v))
     && match var_type v with
+       | Some TQName =>
+           match v_tokens_factory v with None => true | Some _ => false end
+           && match v_default v with DNone => true | _ => false end
        | Some t =>
            simple_type t
            && match v_tokens_factory v with
@@ -293,6 +296,9 @@ Section Guards.
     && match v_clazz v with None => true | Some _ => false end
     && match v_factory v with None => true | Some _ => false end
     && match var_type v with
+       | Some TQName =>
+           match v_tokens_factory v with None => true | Some _ => false end
+           && match v_default v with DNone => true | _ => false end
        | Some t =>
            simple_type t
            && match v_tokens_factory v with
@@ -438,7 +444,7 @@ Section Guards.
     | None =>
         match x with
         | VNone => match v_default v with DNone => true | _ => false end
-        | VP p => leaf_ok (vtype v) (v_format v) p
+        | VP p => if ptype_eqb (vtype v) TQName then qleaf_ok p else leaf_ok (vtype v) (v_format v) p
         | _ => false
         end
     | Some f =>
@@ -454,7 +460,8 @@ Section Guards.
     | None =>
         match x with
         | VNone => true
-        | VP p => leaf_ok (vtype v) (v_format v) p && nonempty_s (leaf_text (v_format v) p)
+        | VP p => if ptype_eqb (vtype v) TQName then qleaf_ok p
+                  else leaf_ok (vtype v) (v_format v) p && nonempty_s (leaf_text (v_format v) p)
         | _ => false
         end
     | Some f =>
